@@ -40,6 +40,9 @@ CLAIMED = {
  "C16": dict(
   text="Deductive proof that connection ids are checked unique across all allocations before insertion, that a connection is installed unbound with the configured bind timeout whose closure removes it if still unbound, that GetTCPConnection hands a connection out only to the allocation's user and flips bound exactly once, that inbound connections are registered only with a permission, that the Connect handler answers 446/447/403 for the respective errors, passes the authenticated owner's allocation and the decoded peer, and that CreateTCPConnection releases the manager lock and leaks no socket on every path.",
   ref="9 (C16)", note="Assumed: io.Copy copies faithfully; A1, A2. Manager.RemoveTCPConnection is not under contract.", technique=TECH),
+ "C17": dict(
+  text="Deductive proof on lt_cred.go: both generators stamp the user name with the decimal text of floor((now+duration)/1s) (REST form: stamp, ':' and the user) and return base64(HMAC-SHA1(secret, username)); both handlers accept exactly when the (first field of the) user name parses as an integer that is >= the current Unix second, return GenerateAuthKey(full username, realm, base64(HMAC-SHA1(secret, full username))) and the documented user id; lemmas connect the generators' output format to the handlers' acceptance test (accepted at every second <= expiry, at none after).",
+  ref="9 (C17)", note="Assumed, not proved: GenerateAuthKey's contract (MD5 of 'user:realm:password', trusted because it hashes through fmt.Fprint); strconv Atoi/FormatInt round trip and strings.Split field axioms (specs/crypto.spec); HMAC/MD5/base64 are functions of their inputs and collision-free (ideal hash, A4), which is what turns 'key differs' into 'never authenticates'; the end-to-end clause (real server and client) is covered only through C03's authenticateRequest contract.", technique=TECH),
  "C18": dict(
   text="Deductive proof, over all control-flow paths (including error returns and armed defers) of every function under contract that takes a mutex, of lock balance (held count on exit equals entry), unlock-of-held, no self-deadlock (no re-acquisition of a lock this execution already holds) and the declared lock order.",
   ref="9 (C18)", note="Only the lock clauses: data-race freedom, channel deadlocks and monitor invariants at unlock points (publish-before-arm window, DESIGN.md F5) are NOT decided by this check.", technique=TECH),
